@@ -5,7 +5,12 @@ HERE = os.path.dirname(os.path.abspath(__file__))
 
 
 def harness_files(tier, seed):
-    return [os.path.join(HERE, 'hC17.py')]
+    files = [os.path.join(HERE, 'hC17.py')]
+    if tier == 'thorough':
+        # 64 generic hierarchies drawn from a grammar with VERIF_SEED (regenerated at import from the seed)
+        os.environ['VERIF_SEED'] = str(seed)
+        files.append(os.path.join(HERE, 'hC17g.py'))
+    return files
 
 
 META = dict(
@@ -16,6 +21,8 @@ META = dict(
             "(depth <= 3: bound, forwarded, re-parameterised two-parameter, field-less forwarding, nested forwarding); option "
             "inheritance over 3 levels + mixin (layouts, rename, allow_extra, frozen, custom)",
     stubs=[],
-    outside=["hierarchies are enumerated programs, not generated from a grammar"],
+    outside=["quick tier: hierarchies are enumerated programs; thorough tier adds 64 generic hierarchies drawn from a grammar with VERIF_SEED "
+             "(two levels, 1-5 fields, type trees of depth 2 over two variables incl. two generic dataclasses as constructors, four instantiation "
+             "modes) judged by a reference on type trees"],
     assumptions=["oracle: reference merge (props/hC17.py ref_merge) + expected substituted types per instantiation"],
 )
